@@ -52,6 +52,9 @@ func Gen(t *rapid.T) Case {
 	}
 	c.Realm = genRealm(t)
 	c.RealmCtx = rapid.IntRange(0, 2).Draw(t, "realmctx") == 0
+	if rapid.IntRange(0, 3).Draw(t, "default-realm-name-assigned") == 0 {
+		c.DefaultRealm = rapid.SampledFrom([]string{"Tenant A", "API v2", "r"}).Draw(t, "default-realm")
+	}
 	c.AuthErr = rapid.SampledFrom([]string{"unauth", "unauth", "plain", "forbidden"}).Draw(t, "autherr")
 	c.LateResponder = rapid.IntRange(0, 2).Draw(t, "late-responder") == 0
 	c.SharedResults = rapid.IntRange(0, 2).Draw(t, "shared-results") == 0
@@ -128,6 +131,9 @@ func Classify(c Case) (bool, []string) {
 	}
 	if strings.ContainsAny(c.Realm, "\"\\") {
 		l["realm with quote or backslash"] = true
+	}
+	if c.DefaultRealm != "" {
+		l["authenticator built with the empty realm under an assigned DefaultRealmName that changes afterwards"] = true
 	}
 	if c.RealmCtx {
 		l["BasicAuthRealmCtx"] = true
